@@ -100,7 +100,7 @@ func main() {
 		}
 	}
 
-	n := hv.Scale(1600, 30000)
+	n := hv.Scale(1400, 30000)
 	for c := 0; c < n; c++ {
 		class := hv.Pick(r, []string{"file-only", "file-only", "grants", "grants", "mixed", "mixed", "long-line"})
 		if class == "long-line" && !r.Chance(8) {
